@@ -137,6 +137,7 @@ class Events:
         self.locals = {}         # function qualname -> {name: value} at return
         self.where_conditions = []
         self.base_init_calls = []
+        self.inplace_owned = []  # in-place updates of arrays returned by uninterpreted callables
         self.linspaces = {}      # input name -> dict(a, b, num, endpoint)
         self.intsyms = {}        # atom name -> dict(expr, rounded)
 
@@ -155,6 +156,8 @@ class Interp:
         self.stn = None            # stencil.Stn when slice code is analysed
         self.follow_base_init = True
         self._active_lambdas = []
+        self._owned_names = set()
+        self._last_opaque_call = None
         self.size_atom = None      # ring element standing for the mesh size n in value arithmetic
         self.on_setattr = None     # hook(obj, attr, value) -> value
         self.np_hooks = {}         # numpy function name -> python callable(args, kwargs)
@@ -245,11 +248,23 @@ class Interp:
             self.eval(st.value, env, func, depth)
             return
         if isinstance(st, ast.Assign):
+            self._last_opaque_call = None
             v = self.eval(st.value, env, func, depth)
+            owned = isinstance(st.value, ast.Call) and self._last_opaque_call is st.value
             for t in st.targets:
                 self.assign(t, v, env, func, depth)
+                if isinstance(t, ast.Name):
+                    if owned:
+                        self._owned_names.add((id(env), t.id))
+                    else:
+                        self._owned_names.discard((id(env), t.id))
             return
         if isinstance(st, ast.AugAssign):
+            base = st.target
+            while isinstance(base, ast.Subscript):
+                base = base.value
+            if isinstance(base, ast.Name) and (id(env), base.id) in self._owned_names:
+                self.ev.inplace_owned.append((st.lineno, base.id))
             cur = self.eval(_as_load(st.target), env, func, depth)
             rhs = self.eval(st.value, env, func, depth)
             v = self.binop(st.op, cur, rhs, st)
@@ -853,6 +868,7 @@ class Interp:
             return self.call_function(f, args, kwargs, depth + 1)
         if isinstance(f, OpaqueFn):
             self.ev.opaque_calls.append(f.name)
+            self._last_opaque_call = node
             if any(isinstance(a, SArr) for a in args):
                 ops = [a if isinstance(a, SArr) else self.lift(a) for a in args]
                 return self.stn.zip_map(lambda *vals: self.dom.opaque(f.name, list(vals), f.positive), *ops)
